@@ -49,6 +49,38 @@ def after_failure(chk, suite, enc_cases):
                 return
 
 
+def after_bad_argument(chk, suite, enc_cases, bad_of):
+    """enc_cases: (label, send(value, sink), value, expected bytes).  The encoder is first called with a value of the wrong
+    type that compares equal to the good one (bad_of(value): 5.0 for 5, a str subclass ...); whatever that call does (it may
+    raise), the good value must afterwards encode to the expected bytes."""
+    class Sink(object):
+        def __init__(self):
+            self.out = b''
+
+        def send(self, d):
+            self.out += bytes(d)
+    for label, send, value, exp in enc_cases:
+        for bad in bad_of(value):
+            try:
+                send(bad, Sink())
+            except Exception:
+                pass
+            s = Sink()
+            chk.count(suite, ['after-bad-argument', label, repr(value)[:60], repr(bad)[:60]], True)
+            try:
+                send(value, s)
+                got = s.out
+            except Exception as e:
+                got = 'raised %s' % type(e).__name__
+            if got != exp:
+                chk.violation(suite, 'after-bad-argument:%s:%r' % (label, value if len(repr(value)) < 40 else hash(repr(value))),
+                              {'case': {'type': label, 'value': repr(value)[:200], 'earlier_call_with': '%s %r' % (type(bad).__name__, bad)}, 'expected': exp.hex()[:200],
+                               'observed': got.hex()[:200] if isinstance(got, bytes) else got},
+                              '%s %s: after a call with %s(%r), the encoding is %s; expected %s' % (label, repr(value)[:40], type(bad).__name__, bad,
+                                                                                                   got.hex()[:60] if isinstance(got, bytes) else got, exp.hex()[:60]))
+                return
+
+
 class FailingSource(object):
     """a stream that delivers [data] and then fails like a socket that timed out / would block / was reset"""
     def __init__(self, data, exc):
